@@ -1,6 +1,18 @@
 //! Correspondence harness: answers line-protocol requests by running the real crate (built from
 //! /repo's working tree) in-process, every request under `catch_unwind`.
+mod attr;
 mod bits;
+mod der;
+mod front;
+mod inttype;
+mod names;
+mod parse;
+mod per;
+mod proto;
+mod resolve;
+mod tags;
+mod tok;
+mod uper;
 mod util;
 
 use std::io::{BufRead, Write};
@@ -9,6 +21,18 @@ fn answer(line: &str) -> String {
     let toks: Vec<&str> = line.split_ascii_whitespace().collect();
     let r = std::panic::catch_unwind(|| match toks.split_first() {
         Some((&"bits", args)) => bits::handle(args),
+        Some((&"per", args)) => per::handle(args),
+        Some((&"der", args)) => der::handle(args),
+        Some((&"inttype", args)) => inttype::handle(args),
+        Some((&"tok", args)) => tok::handle(args),
+        Some((&"tags", args)) => tags::handle(args),
+        Some((&"names", args)) => names::handle(args),
+        Some((&"attr", args)) => attr::handle(args),
+        Some((&"parse", args)) => parse::handle(args),
+        Some((&"resolve", args)) => resolve::handle(args),
+        Some((&"proto", args)) => proto::handle(args),
+        Some((&"uper", args)) => uper::handle(args),
+        Some((&"front", args)) => front::handle(args),
         _ => None,
     });
     match r {
